@@ -149,6 +149,19 @@ func (c *Ctx) Case(body func(k *K)) {
 		}()
 		body(k)
 	}()
+	// a case description completed only at the end of the body (deferred) is attached to the findings recorded before
+	if k.Case != nil {
+		for i := range c.rep.Violations {
+			if c.rep.Violations[i].Index == k.Index && c.rep.Violations[i].Case == nil {
+				c.rep.Violations[i].Case = jsonSafe(k.Case)
+			}
+		}
+		for i := range c.rep.Known {
+			if c.rep.Known[i].Index == k.Index && c.rep.Known[i].Case == nil {
+				c.rep.Known[i].Case = jsonSafe(k.Case)
+			}
+		}
+	}
 	// samples are taken after the body so that the case description is complete; every shard writes out at least one case
 	if (k.wantSample || len(c.rep.Samples) == 0) && len(c.rep.Samples) < 2 && k.Case != nil {
 		c.rep.Samples = append(c.rep.Samples, map[string]any{"index": k.Index, "case": jsonSafe(k.Case)})
